@@ -9,7 +9,11 @@ from mininec.mininec import Mininec, Wire, Excitation, Angle, ideal_ground
 
 
 def solve(spec):
-    m = Mininec(spec['f'], [Wire(*w) for w in spec['wires']], media=[ideal_ground] if spec['ground'] else None)
+    wires = [Wire(*w) for w in spec['wires']]
+    for w, t in zip(wires, spec.get('taper') or []):
+        if t:
+            w.segtype = t          # tapered segmentation: the two halves of an interior pulse differ in length
+    m = Mininec(spec['f'], wires, media=[ideal_ground] if spec['ground'] else None)
     m.register_source(Excitation(complex(*spec['v'])), spec['feed'])
     if spec.get('feed2'):
         # a second fed element (voltage chosen freely: one of the feeds may absorb power)
@@ -160,10 +164,13 @@ def gen(rng):
             d2 /= np.linalg.norm(d2)
             c = b + d2 * n2 * seg
             ws.append((n2,) + tuple(b) + tuple(c) + (0.001,))
+    taper = [0] * len(ws)
+    if rng.random() < 0.3:
+        taper[0] = rng.choice([1, 2, 3])
     feed2 = None
     if len(ws) > 1 and rng.random() < 0.6:
         feed2 = (rng.randint(0, ws[1][0] - 2), rng.uniform(-1.5, 1.5), rng.uniform(-1, 1))
-    spec = {'wires': [tuple(float(x) if k else int(x) for k, x in enumerate(w)) for w in ws], 'ground': ground, 'f': f, 'feed2': feed2,
+    spec = {'wires': [tuple(float(x) if k else int(x) for k, x in enumerate(w)) for w in ws], 'ground': ground, 'f': f, 'feed2': feed2, 'taper': taper,
             'v': (rng.uniform(0.5, 2), rng.uniform(-1, 1)), 'feed': rng.randint(0, ws[0][0] - 2),
             'z0': rng.choice([0, 5, 10]), 'dz': rng.choice([10, 17, 20]), 'a0': rng.choice([0, 30, 200]),
             'da': rng.choice([45, 90, 67]), 'pwr': rng.choice([1.0, 100.0, 400.0]), 'dist': rng.choice([1.0, 1000.0, 50.0])}
